@@ -159,15 +159,15 @@ def extent_checks(q, pc, mem, prefix='extent'):
 # ---- shapes of the structures whose members the harnesses address by position (engine/irsym.Module refuses a tree where they differ)
 _FN = r'\)\*$'
 irsym.LAYOUT_GUARDS.update({
-    'struct.randomx_cache': [r'^i8\*$', r'^void \(%struct\.randomx_cache\*\)\*$', r'\*$', r'i8\*, i64\)\*$', r'i8\*, i32, i32\)\*$', r'std::array', r'std::vector', r'basic_string', r'\*$'],
-    'class.randomx_vm': [r'\(\.\.\.\)\*\*$', r'^\[\d+ x i8\]$', r'randomx::Program"$', r'RegisterFile', r'ProgramConfiguration', r'MemoryRegisters', r'^i8\*$', r'^%union', r'^i64$', r'^i32$', r'basic_string', r'^\[8 x i64\]$'],
+    'struct.randomx_cache': [r'^i8\*$', r'^void \(%struct\.randomx_cache\*\)\*$|^\{\}\*$', r'\*$', r'i8\*, i64\)\*$|^\{\}\*$', r'i8\*, i32, i32\)\*$|^\{\}\*$', r'std::array', r'std::vector', r'basic_string', r'\*$'],
+    'class.randomx_vm': [r'\(\.\.\.\)\*\*$', r'^\[\d+ x i8\]$', r'randomx::Program"$', r'RegisterFile', r'ProgramConfiguration', r'MemoryRegisters', r'^i8\*$', r'^%', r'^i64$', r'^i32$', r'basic_string', r'^\[8 x i64\]$'],
     'class.randomx::JitCompilerX86': [r'std::vector', r'^\[8 x i32\]$', r'^i8\*$', r'^i32$', r'^i32$'],
-    'struct.randomx_dataset': [r'^i8\*$', _FN],
+    'struct.randomx_dataset': [r'^i8\*$', r'\*$'],
     'class.randomx::SuperscalarProgram': [r'^\[\d+ x %"class\.randomx::Instruction"\]$', r'^i32$', r'^i32$'],
     'class.randomx::Blake2Generator': [r'^\[64 x i8\]$', r'^i64$'],
     'struct.randomx::MemoryRegisters': [r'^i32$', r'^i32$', r'^i8\*$'],
     'struct.randomx::ProgramConfiguration': [r'^\[2 x i64\]$', r'^i32$', r'^i32$', r'^i32$', r'^i32$'],
     'struct.randomx::RegisterFile': [r'^\[8 x i64\]$', r'^\[4 x', r'^\[4 x', r'^\[4 x'],
-    'struct.randomx::InstructionByteCode': [r'^%union', r'^%union', r'^%union', r'^i16$', r'^%union', r'^i32$'],
+    'struct.randomx::InstructionByteCode': [r'^%', r'^%', r'^%', r'^i16$', r'^%', r'^i32$'],
     'class.randomx::Program': [r'^\[16 x i64\]$', r'^\[\d+ x %"class\.randomx::Instruction"\]$'],
 })
